@@ -36,8 +36,8 @@ import (
 )
 
 func main() {
-	Main("C19", check, func(c *Ctx) (string, []byte, error) { return dctab.Gen(c.Repo) },
-		func(c *Ctx) (string, []byte, error) { return dctab.GenProc(c.Repo) }, stateGen)
+	Main("C19", check, stateGen, func(c *Ctx) (string, []byte, error) { return dctab.Gen(c.Repo) },
+		func(c *Ctx) (string, []byte, error) { return dctab.GenProc(c.Repo) })
 }
 
 // ---------------------------------------------------------------- lattice fields
